@@ -5,6 +5,8 @@ from harness import jsonvals as jv, sessions
 from harness.props import conn_common as cm, codec_common as cc
 
 NASTY = [
+    # ill-formed responses that also carry an unhashable id (the 1.0 class lets any id through)
+    b'{"id":[1]}', b'{"result":1,"id":{"a":1}}', b'{"result":1,"error":2,"id":[]}', b'{"jsonrpc":"1.0","id":[1]}', b'{"error":null,"id":[[]]}',
     b'{"result":1,"error":null,"id":[]}', b'{"result":1,"error":null,"id":{"a":1}}', b'{"result":null,"error":"e","id":[[1]]}',
     b'[{"jsonrpc":"2.0","result":1,"id":1},{"jsonrpc":"2.0","result":2,"id":"a"}]',
     b'[{"jsonrpc":"2.0","result":1,"id":0},{"jsonrpc":"2.0","result":2,"id":null}]',
